@@ -219,6 +219,11 @@ type SeqOptions struct {
 	MaxRaw         int
 	DictSize       int64
 	BigChunk       bool // allow one chunk near the size limits
+	// ForceSize gives chunk i an exact uncompressed size (LZMA chunks are then
+	// filled with long rep matches).
+	ForceSize map[int]int
+	// Garbage[i] replaces chunk i by these raw bytes (invalid control bytes).
+	Garbage map[int][]byte
 }
 
 // Realise encodes a sequence of chunk kinds (legal or not) as a byte stream.
@@ -238,9 +243,14 @@ func Realise(r *sim.Rng, kinds []string, o SeqOptions) *ChunkSeq {
 	p := RandProps(r, true)
 	e := reflzma.NewEncoder(p, o.DictSize)
 	haveModel := false
-	for _, k := range kinds {
+	for ci, k := range kinds {
 		cs.Offsets = append(cs.Offsets, len(cs.Stream))
 		cs.ContentUpTo = append(cs.ContentUpTo, len(e.Hist))
+		if g, ok := o.Garbage[ci]; ok {
+			cs.Stream = append(cs.Stream, g...)
+			continue
+		}
+		forced, isForced := o.ForceSize[ci]
 		switch k {
 		case "end":
 			cs.Stream = append(cs.Stream, 0)
@@ -248,6 +258,9 @@ func Realise(r *sim.Rng, kinds []string, o SeqOptions) *ChunkSeq {
 			n := r.Range(1, o.MaxRaw)
 			if o.BigChunk && r.Chance(1, 3) {
 				n = r.Range(60000, 65536)
+			}
+			if isForced {
+				n = forced
 			}
 			raw := r.Bytes(n)
 			if r.Bool() {
@@ -276,6 +289,12 @@ func Realise(r *sim.Rng, kinds []string, o SeqOptions) *ChunkSeq {
 				e.ResetState()
 			}
 			_ = haveModel
+			if e.State() >= 7 && int64(e.Rep()[0])+1 > e.Avail() {
+				// only reachable in an illegal sequence (dictionary reset
+				// without state reset): decoders reject the chunk by its
+				// header, so its body merely has to be encodable
+				e.ResetState()
+			}
 			nops := r.Range(1, o.MaxOpsPerChunk)
 			maxc := 1 << 16
 			if o.BigChunk && r.Chance(1, 3) {
@@ -283,10 +302,28 @@ func Realise(r *sim.Rng, kinds []string, o SeqOptions) *ChunkSeq {
 				maxc = r.Range(1<<21-600, 1<<21)
 			}
 			before := len(e.Hist)
-			// at least one byte of content
-			genOpsBounded(r, e, nops, maxc)
-			if len(e.Hist) == before {
-				e.Lit(byte(r.Intn(256)))
+			if isForced {
+				if forced > 8 {
+					genOpsBounded(r, e, r.Range(0, 6), forced-2)
+				}
+				for len(e.Hist)-before < forced {
+					left := forced - (len(e.Hist) - before)
+					if e.Avail() == 0 || left == 1 || int64(e.Rep()[0])+1 > e.Avail() {
+						e.Lit(byte(r.Intn(4)))
+						continue
+					}
+					l := 273
+					if left < l {
+						l = left
+					}
+					e.RepMatch(0, l)
+				}
+			} else {
+				// at least one byte of content
+				genOpsBounded(r, e, nops, maxc)
+				if len(e.Hist) == before {
+					e.Lit(byte(r.Intn(256)))
+				}
 			}
 			body := e.Finish()
 			u := len(e.Hist) - before
